@@ -52,6 +52,7 @@ type c11sMon struct {
 	// holds, the index its state had when PrepareSnapshot ran, and the index its
 	// state had at the last Sync (on-disk state machines)
 	lastIdx, preparedIdx, syncedIdx uint64
+	sessionMode                     bool
 	ssFinds                         map[string]string
 	excl                            int // written by Update, Sync, PrepareSnapshot, RecoverFromSnapshot, Close
 	rw                              int // plain SM: written by Update/Recover/Close, read by Lookup/SaveSnapshot
@@ -271,6 +272,24 @@ func (s *c11sSnapshotter) Save(sv ISavable, meta SSMeta) (pb.Snapshot, SSEnv, er
 		if s.kind == "concurrent" && m.preparedIdx != meta.Index { // (an on-disk state machine's local snapshot is a dummy: Prepare is not called)
 			m.ssFinds[s.kind+"/snapshot/label-differs-from-prepared-state"] = fmt.Sprintf("snapshot labelled index %d holds the state PrepareSnapshot captured at index %d", meta.Index, m.preparedIdx)
 		}
+		// C05/C08: the session image of the snapshot belongs to the same point as its state image: every
+		// session-managed entry the image holds has its response in the session table (none was acknowledged)
+		if m.sessionMode && s.kind == "concurrent" {
+			mgr := NewSessionManager()
+			if err := mgr.LoadSessions(bytes.NewReader(meta.Session.Bytes()), V2); err != nil {
+				m.ssFinds["concurrent/snapshot/session-image-unreadable"] = err.Error()
+			} else if sess, ok := mgr.ClientRegistered(12345); !ok {
+				m.ssFinds["concurrent/snapshot/session-missing"] = "the registered client session is not in the snapshot's session image"
+			} else {
+				want := 0
+				for i := uint64(2); i <= m.preparedIdx; i++ {
+					want++
+				}
+				if len(sess.History) != want {
+					m.ssFinds["concurrent/snapshot/session-image-differs-from-state-image"] = fmt.Sprintf("the state image holds %d session-managed proposal(s) (prepared at index %d), the session image of the same snapshot holds %d cached response(s): a retry after a restore from this snapshot is applied twice", want, m.preparedIdx, len(sess.History))
+				}
+			}
+		}
 		// C04/C08: once an on-disk state machine's snapshot at index X is recorded the log up to X may be
 		// compacted, so everything up to X must have been made durable by Sync
 		if s.kind == "ondisk" && m.syncedIdx < meta.Index {
@@ -356,6 +375,19 @@ func c11sEntry(i uint64) pb.Entry {
 		ClientID: 12345, SeriesID: client.NoOPSeriesID, Cmd: []byte("x")}
 }
 
+// c11sSessionMode: run as C08 part rsm-sched, the entries of concurrent state
+// machines belong to a registered client session (series = index, never
+// acknowledged), so that the session image of a snapshot can be compared with
+// its state image
+func c11sSessionMode(kind string) bool {
+	return os.Getenv("VERIF_C11S_ORACLE") == "snapshot" && kind == "concurrent"
+}
+
+func c11sSessionEntry(i uint64) pb.Entry {
+	return pb.Entry{Index: i, Term: 1, Type: pb.ApplicationEntry, Key: 100 + i,
+		ClientID: 12345, SeriesID: i, RespondedTo: 0, Cmd: []byte("x")}
+}
+
 func c11sNewWorld(sc *c11sScenario, free bool) *c11sWorld {
 	w := &c11sWorld{sc: sc, mon: newC11sMon(sc.Kind, free)}
 	cfg := config.Config{ShardID: 1, ReplicaID: 1}
@@ -378,7 +410,18 @@ func c11sNewWorld(sc *c11sScenario, free bool) *c11sWorld {
 		}
 	}
 	// what node.pushEntries / runSyncTask queued before the apply worker runs
-	if len(sc.Apply) > 0 {
+	if c11sSessionMode(sc.Kind) && len(sc.Apply) > 0 {
+		// the client's session is registered first (single threaded, not judged)
+		w.s.TaskQ().Add(Task{Entries: []pb.Entry{{Index: 1, Term: 1, Type: pb.ApplicationEntry, Key: 99,
+			ClientID: 12345, SeriesID: client.SeriesIDForRegister}}})
+		if _, err := w.s.Handle(make([]Task, 0, 4), make([]sm.Entry, 0, 4)); err != nil {
+			panic(err)
+		}
+		w.mon.sessionMode = true
+		w.mon.lastIdx = 1 // the register entry is applied without an Update call: the user state is "as of index 1"
+		w.s.TaskQ().Add(Task{Entries: []pb.Entry{c11sSessionEntry(2), c11sSessionEntry(3)}})
+		w.s.TaskQ().Add(Task{Entries: []pb.Entry{c11sSessionEntry(4)}})
+	} else if len(sc.Apply) > 0 {
 		w.s.TaskQ().Add(Task{Entries: []pb.Entry{c11sEntry(1), c11sEntry(2)}})
 		if sc.Kind == "ondisk" {
 			w.s.TaskQ().Add(Task{PeriodicSync: true})
